@@ -174,8 +174,8 @@ func apply(c Case) []stepResult {
 		var e error
 		switch o.Kind {
 		case "register":
-			versions[o.Name] = 0
-			h := stub(o.Name, 0)
+			versions[o.Name]++
+			h := stub(o.Name, versions[o.Name])
 			switch {
 			case o.Before == "" && o.After == "":
 				e = proc.Register(o.Name, h)
@@ -221,16 +221,21 @@ func callRegister(cb reflect.Value, name string, h func(*gorm.DB)) error {
 type reg struct {
 	before, after string
 	builtin       bool // still the original built-in registration
-	version       int
+	version       int  // handler generation: every Register / Replace of the name makes a new one
+	// dup: the name was registered again while it was live (gorm only warns). The statement's
+	// "every registered callback exactly once" is read per name with the latest handler (what
+	// Get(name) returns); WHERE such a name runs is not defined, so no position is asserted for it.
+	dup bool
 }
 
 type model struct {
 	pipeline string
 	live     map[string]*reg
+	gen      map[string]int // handler generations handed out per name, live or not
 }
 
 func newModel(pipeline string) *model {
-	m := &model{pipeline: pipeline, live: map[string]*reg{}}
+	m := &model{pipeline: pipeline, live: map[string]*reg{}, gen: map[string]int{}}
 	for _, b := range builtins[pipeline] {
 		m.live[b] = &reg{builtin: true}
 	}
@@ -240,9 +245,15 @@ func newModel(pipeline string) *model {
 func (m *model) step(o Op) {
 	switch o.Kind {
 	case "register":
-		m.live[o.Name] = &reg{before: o.Before, after: o.After}
+		m.gen[o.Name]++
+		if r, live := m.live[o.Name]; live {
+			r.dup, r.builtin, r.version = true, false, m.gen[o.Name]
+		} else {
+			m.live[o.Name] = &reg{before: o.Before, after: o.After, version: m.gen[o.Name]}
+		}
 	case "replace":
-		m.live[o.Name].version++
+		m.gen[o.Name]++
+		m.live[o.Name].version = m.gen[o.Name]
 	case "remove":
 		delete(m.live, o.Name)
 	}
@@ -280,7 +291,7 @@ func (m *model) check(f []fired) error {
 			last, lastName = pos[b], b
 		}
 	}
-	unconstrained := func(r *reg) bool { return r.builtin || (r.before == "" && r.after == "") }
+	unconstrained := func(r *reg) bool { return !r.dup && (r.builtin || (r.before == "" && r.after == "")) }
 	// '*' is asserted only when it can be honoured together with the explicit
 	// constraints and the built-in order: when the '*' edges close a cycle that
 	// the explicit edges alone do not, the explicit names outrank '*'
@@ -289,7 +300,11 @@ func (m *model) check(f []fired) error {
 	if !starHard {
 		evid.Class("state:star-conflict-soft")
 	}
+	anchorOK := func(n string) bool { a, ok := m.live[n]; return ok && !a.dup }
 	for name, r := range m.live {
+		if r.dup {
+			continue
+		}
 		if !starHard && (r.before == "*" || r.after == "*") {
 			continue
 		}
@@ -300,7 +315,7 @@ func (m *model) check(f []fired) error {
 				}
 			}
 		} else if r.before != "" {
-			if _, ok := m.live[r.before]; ok && pos[name] > pos[r.before] {
+			if anchorOK(r.before) && pos[name] > pos[r.before] {
 				return fmt.Errorf("%q registered Before(%s) fired after it", name, r.before)
 			}
 		}
@@ -311,7 +326,7 @@ func (m *model) check(f []fired) error {
 				}
 			}
 		} else if r.after != "" {
-			if _, ok := m.live[r.after]; ok && pos[name] < pos[r.after] {
+			if anchorOK(r.after) && pos[name] < pos[r.after] {
 				return fmt.Errorf("%q registered After(%s) fired before it", name, r.after)
 			}
 		}
@@ -335,6 +350,9 @@ func (m *model) acyclic(withStar bool) bool {
 	}
 	unconstrained := func(r *reg) bool { return r.builtin || (r.before == "" && r.after == "") }
 	for n, r := range m.live {
+		if r.dup {
+			continue
+		}
 		if r.before == "*" {
 			if withStar {
 				for o, ro := range m.live {
@@ -343,7 +361,7 @@ func (m *model) acyclic(withStar bool) bool {
 					}
 				}
 			}
-		} else if _, ok := m.live[r.before]; ok && r.before != "" {
+		} else if a, ok := m.live[r.before]; ok && r.before != "" && !a.dup {
 			g[n] = append(g[n], r.before)
 		}
 		if r.after == "*" {
@@ -354,7 +372,7 @@ func (m *model) acyclic(withStar bool) bool {
 					}
 				}
 			}
-		} else if _, ok := m.live[r.after]; ok && r.after != "" {
+		} else if a, ok := m.live[r.after]; ok && r.after != "" && !a.dup {
 			g[r.after] = append(g[r.after], n)
 		}
 	}
@@ -546,7 +564,7 @@ func forwardRef(c Case) bool {
 	fwd := map[ref]bool{}
 	firstResolution := -1
 	for i, o := range c.Ops {
-		if o.Kind == "register" {
+		if _, wasLive := m.live[o.Name]; o.Kind == "register" && !wasLive {
 			for n, r := range m.live {
 				if n == o.Name {
 					continue
@@ -698,6 +716,13 @@ func nextOps(m *model, nCustom int, reducedCombos bool) []Op {
 		if _, ok := m.live[c]; ok {
 			liveNames = append(liveNames, c)
 		}
+	}
+	for _, n := range liveNames {
+		// registering a live name again (gorm warns "duplicated callback"): the name must still run once, latest handler
+		if r := m.live[n]; (r.before == "*" || r.after == "*") && harness.OpenClass("C17", "replace-star") {
+			continue // same root as the listed finding: '*' entries are reordered behind the newer entry of the name
+		}
+		ops = append(ops, Op{Kind: "register", Name: n})
 	}
 	for _, n := range liveNames {
 		if r := m.live[n]; (r.before == "*" || r.after == "*") && harness.OpenClass("C17", "replace-star") {
